@@ -56,7 +56,7 @@ ASSUMPTIONS = [
     "Compose is given no type keyword; Combine keywords are name, type and range",
     "equality distinguishes list from tuple and bool from int",
 ]
-NONTRIVIAL_FLOOR = {"quick": 20000, "thorough": 1000000}
+NONTRIVIAL_FLOOR = {"quick": 20000, "thorough": 500000}
 BUDGET_S = {"quick": 240, "thorough": 3000}
 
 LEVEL_TEXT = ("bounded exhaustive exploration: all chains of 1..4 (thorough: 1..5) distinct typed "
